@@ -21,6 +21,16 @@ CLAIMED = {
         technique='contract (language equality) on real source, relang -> z3 regex solver',
         design_ref='7/C28',
     ),
+    'C19': dict(
+        text='Batch._create_bunches is verified against a boundary-array contract (ghost st/m): the bunches are adjacent non-empty slices of '
+        '[*group specs, *job specs] in order, each within the count and byte limits, for all list contents and limits (loop invariant with ghost '
+        'prefix sums, discharged by z3); SpecBytes.__init__/n_bytes under contract; type filters and submission order decided on the AST.',
+        note=COMMON_NOTE + 'orjson.dumps uninterpreted; SpecBytes modelled by a constructor UF whose axioms are the proved postconditions of its methods; '
+        'prefix-sum spec function axioms are definitional; meta-lemma L5 (adjacent slices concatenate to the list) is a paper argument. '
+        'Obligations the solver leaves unknown are only reported as violations when a witness replays on the real function.',
+        technique='loop-invariant contract on real source, pyvc symbolic execution -> z3',
+        design_ref='7/C19',
+    ),
 }
 
 NOT_YET = 'not yet brought within the verifier\'s reach in this build (planned in DESIGN.md section 7); no claim is made'
